@@ -1,4 +1,3 @@
-<<<<<<< HEAD
 #pragma once
 #include <sys/time.h>
 #include <osmocom/core/linuxlist.h>
@@ -9,18 +8,3 @@ struct osmo_timer_list {
 	void (*cb)(void *);
 	void *data;
 };
-=======
-/* shim: timers are recorded, never fired */
-#pragma once
-#include <osmocom/core/linuxlist.h>
-
-struct osmo_timer_list {
-	struct llist_head list;
-	unsigned int active;
-	void (*cb)(void *);
-	void *data;
-};
-
-void osmo_timer_schedule(struct osmo_timer_list *timer, int seconds, int microseconds);
-void osmo_timer_del(struct osmo_timer_list *timer);
->>>>>>> 290d82d36de733d6cf0d7509f16f5a44d8446d2e
